@@ -2,6 +2,7 @@
 
 from __future__ import annotations
 
+import inspect
 import random
 import re
 import typing
@@ -52,7 +53,7 @@ def required_counters(tier):
         "annot_cases": 50, "tree_later_leaf_failed_after_binding": 30,
         "cause_present_checked": 300,
         "cause_absent_checked": 300,
-        "misuse.calls": 300, "stacked.calls": 50,
+        "misuse.calls": 300, "stacked.calls": 50, "foreign_checker.calls": 6,
     }
 
 
@@ -503,6 +504,68 @@ def run_stacked(rec, rng):
                 return
 
 
+def run_foreign_checkers(rec):
+    """'compatible with all runtime type checkers': a typechecker that reports a violation with an exception class of
+    its own (neither TypeError nor beartype's / typeguard's usual one) - a hand-written decorator, beartype configured
+    with `violation_type=` - still ends in jaxtyping.TypeCheckError naming the function"""
+    import functools
+
+    import beartype
+
+    from jaxtyping import Float, TypeCheckError, jaxtyped
+
+    class OwnViolation(Exception):
+        pass
+
+    class OwnLookup(LookupError):
+        pass
+
+    def handwritten(fn):
+        sig = inspect.signature(fn)
+
+        @functools.wraps(fn)
+        def w(*a, **k):
+            b = sig.bind(*a, **k)
+            for n, v in b.arguments.items():
+                ann = sig.parameters[n].annotation
+                if ann is not inspect.Parameter.empty and ann is not typing.Any and isinstance(ann, type) and not isinstance(v, ann):
+                    raise OwnViolation(f"{n} is not a {ann}")
+            return fn(*a, **k)
+
+        return w
+
+    checkers = {"hand-written decorator raising its own exception class": handwritten}
+    try:
+        from beartype import BeartypeConf
+
+        checkers["beartype(conf=BeartypeConf(violation_type=RuntimeError))"] = beartype.beartype(conf=BeartypeConf(violation_type=RuntimeError))
+        checkers["beartype(conf=BeartypeConf(violation_type=OwnLookup))"] = beartype.beartype(conf=BeartypeConf(violation_type=OwnLookup))
+    except Exception:  # noqa - older beartype without violation_type
+        pass
+    for cname, tc in checkers.items():
+        LOG = []
+        ns = {"Float": Float, "N": np.ndarray, "LOG": LOG}
+        real.exec_src('def named_fn(x: Float[N, "a"], y: Float[N, "a"]) -> Float[N, "a"]:\n    LOG.append("body")\n    return x\n', ns)
+        try:
+            f = jaxtyped(typechecker=tc)(ns["named_fn"])
+        except Exception as e:  # noqa
+            rec.violation("foreign-checker", {"checker": cname}, f"decorating with {cname} raised {type(e).__name__}: {e}", mechanism="foreign-checker-decoration-raises")
+            continue
+        for iname, (x, y) in {"ill-size": (real.np_array((2,)), real.np_array((3,))), "ill-dtype": (real.np_array((2,)), real.np_array((2,), "int32")), "well": (real.np_array((2,)), real.np_array((2,)))}.items():
+            del LOG[:]
+            try:
+                f(x, y)
+                got, msg = "ran", ""
+            except BaseException as e:  # noqa
+                got, msg = ("TypeCheckError" if isinstance(e, TypeCheckError) else type(e).__name__), str(e)
+            rec.count("foreign_checker.calls")
+            rec.case(("foreign-checker", cname, iname), True)
+            want = "ran" if iname == "well" else "TypeCheckError"
+            if got != want or (iname != "well" and (LOG or "named_fn" not in msg)):
+                rec.violation("foreign-checker", {"checker": cname, "input": iname}, f"{cname}, {iname} call: {got} (body ran {len(LOG)}x, function named in message: {'named_fn' in msg}); expected {want}", mechanism="foreign-exception-class-" + got)
+                break
+
+
 def run_shard(rec, seed, shard, tier):
     warnings.filterwarnings("ignore")
     if shard.get("i", 1) % 2 == 1:
@@ -510,6 +573,7 @@ def run_shard(rec, seed, shard, tier):
         real.toplevel_probes(rec, None, "after the hostile prelude")
     GT.ensure_registered()
     if shard["i"] % 4 == 0:
+        run_foreign_checkers(rec)
         run_misuse(rec, random.Random(f"{seed}/C13/{shard['i']}/misuse"))
         run_stacked(rec, random.Random(f"{seed}/C13/{shard['i']}/stacked"))
     for k in range(CASES[tier]):
